@@ -10,3 +10,8 @@ pub trait ForeignClone: Sized {
     spec fn cloned(&self, r: Self) -> bool;
     fn clone_(&self) -> (r: Self) ensures self.cloned(r);
 }
+pub trait Foreign1<A, R> {
+    spec fn log(&self) -> Seq<(A, R)>;
+    fn call(&mut self, a: A) -> (r: R)
+        ensures final(self).log() == old(self).log().push((a, r));
+}
